@@ -1,4 +1,5 @@
 import Firebolt.Properties.C01
+import Firebolt.Properties.ExecFlow
 /-!
 # C03 — Clean shutdown drains the whole pipeline and orders node lifecycles
 The invariants under every interleaving are proved on the node component model (`Properties/ExecCascade.lean`, imported by
@@ -13,5 +14,42 @@ theorem skeleton_execute : Generated.execute = Expected.execute := by rfl
 theorem skeleton_waitTimeout : Generated.waitTimeout = Expected.waitTimeout := by rfl
 theorem skeleton_superviseSource : Generated.superviseSource = Expected.superviseSource := by rfl
 theorem skeleton_shutdown : Generated.shutdown = Expected.shutdown := by rfl
+
+
+/-! ### the invariants of the node component model, for every schedule (proved in ExecCascade / ExecFlow) -/
+open Firebolt.Exec in
+/-- no send on a closed channel, no double close — under every interleaving of workers, async completions, upstream, consumers -/
+theorem no_panic_any_schedule (c : Cfg) (caps : Nat → Nat) (disc : Nat → Bool) (as : List Act) (s : St)
+    (hr : run c (init c caps disc) as = some s) : s.panic = false := reachable_no_panic c caps disc as s hr
+
+open Firebolt.Exec in
+/-- Shutdown begins only after every processing call of the node has returned, and no worker can take another event -/
+theorem shutdown_after_all_processing (c : Cfg) (caps : Nat → Nat) (disc : Nat → Bool) (as : List Act) (s : St)
+    (hr : run c (init c caps disc) as = some s) (hs : s.shutStarted = true) (w : Nat) (hw : w < c.W) : (s.pc w).live = false :=
+  shutdown_after_processing c s (reachable_inv c caps disc as s hr) hs w hw
+
+open Firebolt.Exec in
+/-- no event is handed to a node after its Shutdown has begun -/
+theorem no_event_after_shutdown_began (c : Cfg) (caps : Nat → Nat) (disc : Nat → Bool) (as : List Act) (s s' : St)
+    (hr : run c (init c caps disc) as = some s) (hs : s.shutStarted = true) (w : Nat) : step c s (.recv w) ≠ some s' :=
+  fun h => no_event_after_shutdown c s s' (reachable_inv c caps disc as s hr) hs w h
+
+open Firebolt.Exec in
+/-- children and error handler stay open until the node's Shutdown has returned; when they are closed nothing is outstanding -/
+theorem children_closed_after_shutdown_returned (c : Cfg) (caps : Nat → Nat) (disc : Nat → Bool) (as : List Act) (s : St)
+    (hr : run c (init c caps disc) as = some s) (k : Nat) (hk : (s.outs k).closed = true) :
+    s.shutDone = true ∧ s.pending = [] ∧ s.cbs = [] ∧ ∀ w, w < c.W → (s.pc w).live = false :=
+  closed_after_shutdown c s (reachable_inv c caps disc as s hr) k hk
+
+open Firebolt.Exec in
+/-- Shutdown and the closes are performed by at most one worker (exactly-once via sync.Once) -/
+theorem shutdown_by_single_holder (c : Cfg) (caps : Nat → Nat) (disc : Nat → Bool) (as : List Act) (s : St)
+    (hr : run c (init c caps disc) as = some s) : cnt c.W s.pc Pc.holder ≤ 1 := single_holder c s (reachable_inv c caps disc as s hr)
+
+open Firebolt.Exec in
+/-- a worker leaves only when its input is closed and drained; at quiescence everything sent was handed over and resolved -/
+theorem drained_at_quiescence (c : Cfg) (caps : Nat → Nat) (disc : Nat → Bool) (as : List Act) (s : St)
+    (hr : run c (init c caps disc) as = some s) (ht : Terminal c s) : s.upSent = s.recvd ∧ s.recvd.Perm s.resolved ∧ s.inp = [] :=
+  terminal_drained c s (reachable_all c caps disc as s hr) ht
 
 end Firebolt.C03
